@@ -659,3 +659,14 @@ pub fn addr_of<T>(r: &T) -> usize {
 pub fn take_misaligned() -> u32 {
     MISALIGNED.with(|c| c.replace(0))
 }
+
+thread_local! {
+    static MAY_LEAK: Cell<bool> = const { Cell::new(false) };
+}
+/// an iterator / drain was forgotten: what it still held may have leaked (count-based ownership)
+pub fn mark_may_leak() {
+    MAY_LEAK.with(|c| c.set(true));
+}
+pub fn take_may_leak() -> bool {
+    MAY_LEAK.with(|c| c.replace(false))
+}
